@@ -531,3 +531,76 @@ def api_family_agreement(facts, rep, clause, family, what):
                'parameter(s) %s are never used: the caller\'s argument is silently replaced by a default' % unused,
                ln=g.l0, key_extra='%s:%s:args' % (g.p, g.l0))
     return len(groups), len(uncovered)
+
+
+# ---------------------------------------------------------------------------------------------------------------
+# may-throw summaries and the "reference taken before the point of no failure" rule (K9)
+# ---------------------------------------------------------------------------------------------------------------
+NOTHROW_STD = ('std::forward', 'std::move', 'std::get', 'std::addressof', 'std::begin', 'std::end', 'std::declval')
+USER_BUILTIN_OPS = ('*', '++', '--', '=', '==', '!=', '<', '+=', '-=', '+', '-')
+
+
+def user_op(fn, e):
+    """an operation on a value whose type is a template parameter of the library (a type the user supplies): its copy,
+    dereference, increment, comparison ... may throw whatever the drivers happen to instantiate it with"""
+    n = fn.nodes[e]
+    if not n.get('tp'):
+        return False
+    k = n.get('k')
+    if k in ('call', 'ctor', 'new'):
+        return True
+    if k == 'unop':
+        return n['op'] in USER_BUILTIN_OPS
+    if k == 'binop':
+        return n['op'] in USER_BUILTIN_OPS
+    return False
+
+
+class MayThrow(object):
+    def __init__(self, facts):
+        self.facts = facts
+        self.memo = {}
+
+    def node(self, fn, e):
+        """can evaluating CFG element e (one node, not its sub-expressions) raise an exception?"""
+        n = fn.nodes[e]
+        k = n.get('k')
+        if k == 'throw':
+            return True
+        if user_op(fn, e):
+            return True
+        if k == 'new':
+            if not n.get('pl'):
+                return True            # allocation
+            return False               # placement new: the constructor call is a separate element
+        if k in ('call', 'ctor'):
+            d = fn.callee(e)
+            if d is None:
+                return k == 'call' and 'fx' in n      # call through a functor value: unknown target
+            return self.fn(d.get('u') or n.get('fn'), d)
+        return False
+
+    def fn(self, u, d=None):
+        if u in self.memo:
+            return self.memo[u]
+        d = d or self.facts.decls.get(u) or {}
+        if d.get('ne'):
+            self.memo[u] = False
+            return False
+        if d.get('p') in NOTHROW_STD:
+            self.memo[u] = False
+            return False
+        g = self.facts.fns.get(u)
+        if g is None:
+            # no body in the analysed units: destructors do not throw; anything else may
+            r = d.get('n') != '(dtor)'
+            self.memo[u] = r
+            return r
+        self.memo[u] = False           # cycle guard (optimistic), fixed below
+        r = False
+        for b, i, e in g.iter_elems():
+            if isinstance(e, int) and g.nodes[e].get('k') in ('call', 'ctor', 'new', 'throw', 'unop', 'binop') and self.node(g, e):
+                r = True
+                break
+        self.memo[u] = r
+        return r
